@@ -160,6 +160,19 @@ class NestedParent(WrappingQuery):
             # the parent is deleted, because the query that gave us the parents
             # wouldn't return deleted documents.
             self._nextdoc = self.comb.before(child.id() + 1)
+            # Matching documents that come before the first parent do not
+            # belong to any parent; pass over them
+            while self._nextdoc is None:
+                firstparent = self.comb.after(child.id())
+                if firstparent is None:
+                    # No parents at all from here on
+                    while child.is_active():
+                        child.next()
+                    return
+                child.skip_to(firstparent)
+                if not child.is_active():
+                    return
+                self._nextdoc = self.comb.before(child.id() + 1)
             # The next parent after the child matcher's current document
             nextparent = self.comb.after(child.id()) or self.maxdoc
 
